@@ -162,6 +162,21 @@ def f_flaky() -> S1:
 	return _made(S1(), 'f_flaky')
 
 
+def f_flaky_v() -> S1:
+	# fails with the very exception class the container uses for "not registered" / "arguments do not match"
+	left = Clock.flaky_left.get('f_flaky_v', 0)
+	if left > 0:
+		Clock.flaky_left['f_flaky_v'] = left - 1
+		raise ValueError('flaky factory (injected failure)')
+	return _made(S1(), 'f_flaky_v')
+
+
+def f_on_s2(c: S2) -> S5:
+	o = S5.__new__(S5)
+	Obj.__init__(o, c)
+	return _made(o, 'f_on_s2')
+
+
 def f_flaky2(a: S0) -> S2:
 	left = Clock.flaky_left.get('f_flaky2', 0)
 	if left > 0:
@@ -234,6 +249,8 @@ FACTORIES: dict[str, tuple[Any, str, list[str], list[type]]] = {
 	'f_g1': (f_g1, 'G1', ['S0'], []),
 	'f_flaky': (f_flaky, 'S1', [], []),
 	'f_flaky2': (f_flaky2, 'S2', ['S0'], []),
+	'f_flaky_v': (f_flaky_v, 'S1', [], []),
+	'f_on_s2': (f_on_s2, 'S5', ['S2'], []),
 	'Left.Item': (Left.Item, 'Left.Item', [], []),
 	'Right.Item': (Right.Item, 'Right.Item', ['S0'], []),
 	'AlphaProvider.create': (ALPHA.create, 'S5', ['S0'], []),
@@ -241,6 +258,8 @@ FACTORIES: dict[str, tuple[Any, str, list[str], list[type]]] = {
 	'Maker.make_s0': (MAKER.make_s0, 'S0', [], []),
 	'Maker.make_s2': (MAKER.make_s2, 'S2', ['S0'], []),
 }
+
+FLAKY_ERR = {'f_flaky': 'RuntimeError', 'f_flaky2': 'RuntimeError', 'f_flaky_v': 'ValueError'}
 
 # factories usable as a *binding* for a symbol (no plain parameters)
 BINDABLE: dict[str, list[str]] = {}
